@@ -29,6 +29,7 @@ def top_fq_frame(msg):
     fr = [f for f in frames if not any(s in f for s in skip)]
     pref = [f for f in fr if '/format/' in f]
     pick = (pref or fr or ['?'])[0]
+    pick = re.sub(r'(\.func\d+)+(\.\d+)*$', '', pick)      # closures: the enclosing function is the call site
     return pick.replace('github.com/wader/fq/', '')
 
 
@@ -36,7 +37,7 @@ def fault_kind(msg):
     head = msg.strip().split('\n')[0][:200]
     for pat, name in (('index out of range', 'index_out_of_range'), ('slice bounds out of range', 'slice_bounds'), ('nil pointer', 'nil_dereference'),
                       ('makeslice', 'makeslice'), ('interface conversion', 'type_assertion'), ('divide by zero', 'divide_by_zero'),
-                      ('out of memory', 'out_of_memory'), ('stack overflow', 'stack_overflow'), ('negative', 'negative_size')):
+                      ('out of memory', 'out_of_memory'), ('cannot allocate memory', 'out_of_memory'), ('stack overflow', 'stack_overflow'), ('negative', 'negative_size')):
         if pat in msg[:3000]:
             return name
     return re.sub(r'[^a-z_]+', '_', head.lower())[:40]
@@ -102,7 +103,30 @@ def run(ctx):
         fs = sorted(byfam[fam], key=os.path.getsize)
         ctx.rng.shuffle(fs)
         pick += sorted(fs[:(3 if th else 1)], key=os.path.getsize)[:(3 if th else 1)]
+    # field saturation is cheap and targeted: it gets more files than the bytewise family
+    fpick = []
+    for fam in sorted(byfam):
+        fs = sorted(byfam[fam])
+        ctx.rng.shuffle(fs)
+        fpick += fs[:(12 if th else 2)]
+    fpick = sorted(set(fpick) | set(pick))
     jobs, obs = [], []
+    # numeric fields of every picked sample, from fq's own decode: targets for field saturation
+    fjobs = []
+    for f in fpick:
+        j = corpusarm.mk(f, corpusarm.golden_formats(f, known)[0], tree=False)
+        j['fields'] = True
+        fjobs.append(j)
+    fres = corpusarm.run_jobs(ctx, fjobs, 'c06_fields', mem_kb=MEM_KB, per_job=60)
+    fields = {}
+    for j, r in zip(fjobs, fres):
+        fl = ((r['res'] or {}).get('fields') or []) if r['outcome'] == 'ok' else []
+        fl = sorted({(a, b) for a, b in fl})
+        cap = (400 if f in pick else 150) if th else 40
+        if len(fl) > cap:          # seed-rotating stride over the field list
+            step = len(fl) / cap
+            fl = [fl[int((k * step + ctx.seed) % len(fl))] for k in range(cap)]
+        fields[f] = fl
 
     def add(f, fmt, force, cls, mut, cli=False):
         ob = '%s|%s|%s|%s%s' % (os.path.relpath(f, vlib.REPO) if f.startswith(vlib.REPO) else os.path.basename(f), fmt, 'force' if force else 'noforce', cls, '|cli' if cli else '')
@@ -127,6 +151,14 @@ def run(ctx):
             add(f, fmt, force, 'none', None)
             for cls, m in muts:
                 add(f, fmt, force, cls, m)
+    for f in fpick:                # field saturation under the sample's own format (and probe for the bytewise files in thorough)
+        fmt0 = corpusarm.golden_formats(f, known)[0]
+        for a, b in fields.get(f, []):
+            for v in ((0, 1, 2, 3, 4, 5) if th and f in pick else (0, 1, 2)):
+                m = dict(kind='field', off=a, n=b, val=v)
+                add(f, fmt0, False, 'field', m)
+                if th and f in pick:
+                    add(f, 'probe', False, 'field', m)
         # the command line (exit status) on the truncation family
         for cls, m in [x for x in muts if x[0] == 'trunc'][::(1 if th else 6)]:
             add(f, fmts[0], False, cls, m, cli=True)
